@@ -317,6 +317,7 @@ FUNCS.update({
     'k_mixed': _k_mixed,
     'p_mixed': _p_mixed,
     'p_big': lambda x: 10 ** 20 + (x % 10),
+    'p_falsy': lambda x: [None, 0, ''][x % 10] if x % 10 < 3 else x % 10,      # three distinct falsy predicate values
     'p_str': lambda x: ''.join(['p', str(x % 10)]),
     'mod10': lambda x: x % 10,
     'ts_div10': lambda x: x // 10,
